@@ -99,6 +99,64 @@ where
     Cell1 { name, errors: errs, cached: true }
 }
 
+pub trait Marker {
+    fn which(&self) -> u8;
+}
+pub struct MA;
+pub struct MB;
+impl Marker for MA {
+    fn which(&self) -> u8 {
+        1
+    }
+}
+impl Marker for MB {
+    fn which(&self) -> u8 {
+        2
+    }
+}
+
+/// Two pointers to the same allocation stay `ptr_eq` whatever metadata unsizing gave them.
+pub fn ptr_eq_metadata_cell() -> Cell1 {
+    use gc_arena::unsize;
+    let name = "ptr_eq of pointers that share an allocation but differ in metadata".to_string();
+    let mut errs = Vec::new();
+    gc_arena::arena::rootless_mutate(|mc| {
+        let cache = ZstCache::<8>::new(mc);
+        let a3 = cache.alloc_static(mc, [(); 3]);
+        let a5 = cache.alloc_static(mc, [(); 5]);
+        let s3 = unsize!(a3 => [()]);
+        let s5 = unsize!(a5 => [()]);
+        if s3.len() != 3 || s5.len() != 5 {
+            errs.push(format!("{name}: unsized zero-sized arrays have lengths {} and {}", s3.len(), s5.len()));
+        }
+        if Gc::as_ptr(s3) as *const () != Gc::as_ptr(s5) as *const () {
+            errs.push(format!("{name}: the cache handed out different addresses for two zero-sized arrays"));
+        } else {
+            if !Gc::ptr_eq(s3, s5) {
+                errs.push(format!("{name}: Gc::ptr_eq is false for two slice pointers to the same allocation (lengths 3 and 5)"));
+            }
+            if !gc_arena::GcWeak::ptr_eq(Gc::downgrade(s3), Gc::downgrade(s5)) {
+                errs.push(format!("{name}: GcWeak::ptr_eq is false for two slice pointers to the same allocation"));
+            }
+        }
+        let da = unsize!(cache.alloc_static(mc, MA) => dyn Marker);
+        let db = unsize!(cache.alloc_static(mc, MB) => dyn Marker);
+        if da.which() != 1 || db.which() != 2 {
+            errs.push(format!("{name}: trait objects dispatch to the wrong implementation"));
+        }
+        if Gc::as_ptr(da) as *const () == Gc::as_ptr(db) as *const () && !Gc::ptr_eq(da, db) {
+            errs.push(format!("{name}: Gc::ptr_eq is false for two trait-object pointers to the same allocation (different vtables)"));
+        }
+        // and a pointer is ptr_eq to its own unsized / re-sized forms
+        let arr = Gc::new(mc, [1u8, 2, 3]);
+        let sl = unsize!(arr => [u8]);
+        if !Gc::ptr_eq(Gc::erase(arr), Gc::erase(sl)) || sl.len() != 3 {
+            errs.push(format!("{name}: an array pointer and its unsized form are not ptr_eq"));
+        }
+    });
+    Cell1 { name, errors: errs, cached: true }
+}
+
 pub struct Cell1 {
     pub name: String,
     pub errors: Vec<String>,
